@@ -158,6 +158,9 @@ Ltac irp_step :=
   | |- irpq _ _ _ _ (wbind (get_model _) _) =>
     first [ apply irpq_get_model; [assumption | intros ? ?] | apply irpq_get_model_any; intros ? ]
   | |- irpq _ _ _ _ (wbind wget _) => apply irpq_wget; intros ?
+  | |- irpq _ _ _ _ (wbind (get_file _) _) =>
+    first [ apply irpq_get_file; [np | intros ? ?] | apply irpq_get_file_any; intros ? ]
+  | |- irpq _ _ _ _ (set_file _ _) => apply irp_set_file; [np | cbn [f_model]; np]
   | |- irpq _ _ _ _ (wbind (alloc _) _) => eapply irpq_bind; [apply irpq_alloc; good | cbv beta; intros ? ?]
   | |- irpq _ _ _ _ (wbind (wtry _) _) =>
     first [ eapply irpq_bind; [ solve [eauto with irp nocore] | cbv beta; intros ? ? ]
@@ -374,17 +377,21 @@ Proof.
 Qed.
 
 Lemma Sealed_new_file w m name version :
-  Sealed P PM PF w ->
+  ~ PM m -> Sealed P PM PF w ->
   let w1 := mkWorld (w_nodes w) (w_next w) (w_files w ++ [mkFile m name version None]) (w_models w) in
   Sealed P PM PF w1 /\ Same P PM PF w w1 /\ ~ PF (N.of_nat (List.length (w_files w))).
 Proof.
-  intros S w1. destruct S as (S1 & S2 & S3 & S4 & S5).
+  intros Hm S w1. destruct S as (S1 & S2 & S3 & S4 & S5 & S6).
   assert (Hold : forall f, PF f -> nth_opt (w_files w ++ [mkFile m name version None]) (N.to_nat f) = nth_opt (w_files w) (N.to_nat f)).
   { intros f Hf. destruct (S5 f Hf) as (fl & Hfl).
     destruct (nth_opt_snoc (w_files w) (mkFile m name version None) (N.to_nat f)) as [H|(_ & H & _)]; congruence. }
   split; [|split].
-  - split; [exact S1|]. split; [exact S2|]. split; [exact S3|]. split; [exact S4|].
-    intros f Hf. destruct (S5 f Hf) as (fl & Hfl). exists fl. subst w1. cbn [w_files]. rewrite Hold by exact Hf. exact Hfl.
+  - split; [exact S1|]. split; [exact S2|]. split; [exact S3|]. split; [exact S4|]. split.
+    + intros f Hf. destruct (S5 f Hf) as (fl & Hfl). exists fl. subst w1. cbn [w_files]. rewrite Hold by exact Hf. exact Hfl.
+    + intros f fl Hf Hfl. subst w1. cbn [w_files] in Hfl.
+      destruct (nth_opt_snoc (w_files w) (mkFile m name version None) (N.to_nat f)) as [H|(_ & _ & H)]; rewrite H in Hfl.
+      * eapply S6; eauto.
+      * injection Hfl as <-. exact Hm.
   - split; [reflexivity|]. split; [reflexivity|]. intros f Hf. subst w1. cbn [w_files]. apply Hold. exact Hf.
   - intros Hf. destruct (S5 _ Hf) as (fl & Hfl). apply nth_opt_Some in Hfl. rewrite Nnat.Nat2N.id in Hfl. lia.
 Qed.
@@ -398,24 +405,12 @@ Proof.
   { apply wfail_inv in E2 as (-> & ->). split; [exact S|]. split; [apply Same_refl|]. intros a [=]. }
   apply wbind_inv in E2 as [(u & w1 & E1 & E2) | (e & E1 & _)]; [|discriminate E1].
   unfold wput in E1. injection E1 as <- <-.
-  destruct (Sealed_new_file w m name version S) as (S1 & Sm1 & Hfid). cbv zeta in S1, Sm1.
+  destruct (Sealed_new_file w m name version Hm S) as (S1 & Sm1 & Hfid). cbv zeta in S1, Sm1.
   revert E2 Hfid. generalize (N.of_nat (List.length (w_files w))). intros fid E2 Hfid.
   assert (Hk : irpq (fun f => ~ PF f) (modify_model m (fun y => set_mfiles y (m_files y ++ [fid]));;
                      (do w2 <- wget; do _ <- wtry (add_to_file_restricted T (fuel_of w2) (m_root x) fid); wret fid))%W).
   { irp_tac. }
   destruct (Hk _ _ _ S1 E2) as (S2 & Sm2 & Hq). split; [exact S2|]. split; [eapply Same_trans; eauto|exact Hq].
-Qed.
-
-Lemma irp_set_file f x : ~ PF f -> irp (set_file f x).
-Proof.
-  intros Hf w r w' S E. unfold set_file in E. injection E as <- <-.
-  destruct S as (S1 & S2 & S3 & S4 & S5).
-  assert (Hold : forall g, PF g -> nth_opt (list_set (w_files w) (N.to_nat f) x) (N.to_nat g) = nth_opt (w_files w) (N.to_nat g)).
-  { intros g Hg. rewrite !nth_opt_nth_error. apply list_set_nth_neq. apply to_nat_neq. intros ->. auto. }
-  split; [|split; [|auto]].
-  - split; [exact S1|]. split; [exact S2|]. split; [exact S3|]. split; [exact S4|].
-    intros g Hg. destruct (S5 g Hg) as (fl & Hfl). exists fl. cbn [w_files]. rewrite Hold by exact Hg. exact Hfl.
-  - split; [reflexivity|]. split; [reflexivity|]. intros g Hg. cbn [w_files]. apply Hold. exact Hg.
 Qed.
 
 End Ops.
